@@ -1,6 +1,7 @@
 import Amgcl.Proofs.InverseMatrix
 import Amgcl.Proofs.SkylineMatrix
 import Amgcl.Proofs.SkylineCrout
+import Amgcl.Proofs.SkylineEmbed
 import Amgcl.Proofs.DenseCheck
 import Amgcl.Proofs.C16Examples
 import Mathlib.Algebra.Order.Field.Rat
@@ -11,7 +12,7 @@ import Mathlib.Tactic.FinCases
 # C16 — direct and dense kernels are exact: skyline LU, small inverse, static matrices; checkers for QR and reordering
 
 Only property theorems live here (helper lemmas: `Amgcl/Proofs/{StaticMatrix,Perm,Array2,InverseLU,InverseAlg,
-InversePhase1,InverseSolve,InverseMatrix,SkylineSolve,SkylineBuild,SkylineFactor,SkylineGeom,SkylineCroutAlg,SkylineCrout,
+InversePhase1,InverseSolve,InverseMatrix,SkylineSolve,SkylineBuild,SkylineFactor,SkylineGeom,SkylineCroutAlg,SkylineCrout,SkylineEmbed,
 SkylineMatrix,DenseCheck,C16Examples}.lean`; the last one holds the concrete data of the non-vacuity `example`s).
 Models: `Model/{SkylineLU,Inverse,StaticMatrix,DenseCheck}.lean`, tied to the real templates by `harness/h_direct.cpp`.
 
@@ -34,10 +35,15 @@ Models: `Model/{SkylineLU,Inverse,StaticMatrix,DenseCheck}.lean`, tied to the re
   output of `cuthill_mckee::get`), `qr_exact_sound` (`qrExact = true` ⟹ `A = Q·R`, `QᵀQ = 1`, `R` upper trapezoidal;
   evaluated on the output of `QR::factorize`).
 
-What is **not** proved here (see `tools/checks/C16.json`, open items): that the constructor's raw storage embeds `P A Pᵀ`
-(`fillLUD`; checked per input by the correspondence and the `A x = b` oracle), Cuthill–McKee and Householder QR themselves
+  `skyline_spec` puts constructor, factorisation and solve together: for every square CRS matrix without repeated column
+  indices in a row, every ordering that is a permutation and every right-hand side, if the constructor does not end in
+  `precondition` then `operator()` returns `x` with `A x = b` (`skyline_build_emb`: the constructor's raw storage is the
+  dense embedding of `P A Pᵀ`).
+
+What is **not** proved here (see `tools/checks/C16.json`, open items): Cuthill–McKee and Householder QR themselves
 (V-grade: checker on the implementation's output for the explored inputs only), block-valued (`static_matrix` entries)
-skyline LU (correspondence only), IEEE rounding.
+skyline LU (correspondence only), CRS rows with repeated column indices (the constructor keeps the last one, the matrix
+denotes their sum: outside the claim), IEEE rounding.
 -/
 namespace Amgcl.C16
 open Amgcl Amgcl.Skyline Amgcl.C16Ex
@@ -177,8 +183,8 @@ example : (!![3, 1; 1, 2] : Matrix (Fin 2) (Fin 2) ℚ).mulVec (vecOf exFac.n (s
 
 /-- **Crout on the dense embedding** (`skyline_factorize_partial` of the plan, proved in full for the factorisation
 loop): if `factorize()` ends in `ok` on a well-formed storage, the new factors reproduce the dense embedding of the old
-`L/U/D` storage, `E = L̃ · Ũ`, and every stored inverted pivot is nonzero.  What is *not* covered is the statement that
-the constructor's raw storage embeds `P A Pᵀ` (the traversal `fillLUD`). -/
+`L/U/D` storage, `E = L̃ · Ũ`, and every stored inverted pivot is nonzero (`skyline_build_emb` identifies `E` with
+`P A Pᵀ` for the constructor's storage). -/
 theorem skyline_factorize_spec {K : Type} [Field K] [DecidableEq K] (S S' : Skyline K K) (hst : S.StorageWF)
     (h : factorize (fun v => decide (v = 0)) (fun v => 1 / v) S = .ok S') (hn : 1 ≤ S.n) :
     S'.StorageWF ∧ SameFrame S S' ∧ (∀ i, i < S.n → Dd S' i ≠ 0) ∧
@@ -209,6 +215,30 @@ theorem skyline_construct_solve_spec {K : Type} [Field K] [DecidableEq K] (A : C
 example : ∀ r, r < 2 → ∑ c ∈ Finset.range 2, exDense r c * (solve exFac #[1, 2] #[9, 9]).1.getD c 0 = (#[1, 2] : Array ℚ).getD r 0 :=
   skyline_construct_solve_spec exA #[0, 1] exFac (by decide) ex_perm (by rw [ex_build]; exact ex_factorize) exDense
     (by rw [ex_build]; exact ex_emb) #[1, 2] #[9, 9] rfl
+
+/-- the constructor's raw `L/U/D` storage is the dense embedding of `P A Pᵀ` -/
+theorem skyline_build_emb {K : Type} [Field K] [DecidableEq K] (A : CRS K) (perm : Array Nat) (hsq : A.ncols = A.nrows)
+    (hwf : A.WF) (hnd : ∀ i, ((A.row i).map (·.1)).Nodup) (hp : PermOn A.nrows perm) :
+    ∀ a b, a < A.nrows → b < A.nrows →
+      Emb (build (R := K) (fun v : K => decide (v = 0)) A perm) a b = A.get (perm.getD a 0) (perm.getD b 0) :=
+  build_emb A perm hsq hwf hnd hp
+
+/-- **skyline LU, end to end.**  For every square CRS matrix `A` (column indices in range, no column index twice in a
+row; rows may be unsorted and may carry explicit zeros), every ordering `perm` that is a permutation of `0..n-1`, every
+right-hand side and every incoming content of the output vector: if the constructor (profile, storage, Crout
+factorisation) does not end in the `precondition` outcome, the first call of `operator()` returns `x` with `A x = b`,
+where `A.get` is the denotation of the CRS matrix. -/
+theorem skyline_spec {K : Type} [Field K] [DecidableEq K] (A : CRS K) (perm : Array Nat) (S : Skyline K K)
+    (hn : 1 ≤ A.nrows) (hsq : A.ncols = A.nrows) (hwf : A.WF) (hnd : ∀ i, ((A.row i).map (·.1)).Nodup)
+    (hp : PermOn A.nrows perm)
+    (h : factorize (fun v => decide (v = 0)) (fun v => 1 / v) (build (R := K) (fun v => decide (v = 0)) A perm) = .ok S)
+    (rhs x : Array K) (hx : x.size = A.nrows) :
+    ∀ r, r < A.nrows → ∑ c ∈ Finset.range A.nrows, A.get r c * (solve S rhs x).1.getD c 0 = rhs.getD r 0 :=
+  construct_solve_spec A perm S hn hp h A.get (fun i j hi hj => (build_emb A perm hsq hwf hnd hp i j hi hj).symm) rhs x hx
+
+/-- non-vacuity: CRS `[[3,1],[1,2]]` with an unsorted row -/
+example : ∀ r, r < 2 → ∑ c ∈ Finset.range 2, exA.get r c * (solve exFac #[1, 2] #[9, 9]).1.getD c 0 = (#[1, 2] : Array ℚ).getD r 0 :=
+  skyline_spec exA #[0, 1] exFac (by decide) rfl exA_wf exA_nodup ex_perm (by rw [ex_build]; exact ex_factorize) #[1, 2] #[9, 9] rfl
 
 section anyCarrier
 variable {V R : Type} [Zero V] [Zero R] [Mul V] [Sub V] [Sub R] [HMul V R R]
